@@ -41,6 +41,10 @@ pub fn op_handover(w: &mut World, ki: usize, advance: u64, msgs: u8) {
             log.push_str(&format!(" bad-key loads={:?}", loads));
             w.event(log);
             w.oracle_evaluated();
+            if w.node.as_ref().unwrap().take_timeout() {
+                w.rep.stats.probe("hash-sigs-timeout");
+                return;
+            }
             if loads == Some(true) {
                 w.violate("C13", "exhausted-key-accepted-by-hash-sigs", "handover", format!("hash-sigs signs with the key file {} the library left behind", short_hex(&prv)));
             } else {
@@ -84,6 +88,11 @@ pub fn op_handover(w: &mut World, ki: usize, advance: u64, msgs: u8) {
         w.oracle_evaluated();
         let (sig, newprv) = match r {
             Some(x) => x,
+            None if w.node.as_ref().unwrap().take_timeout() => {
+                w.rep.stats.probe("hash-sigs-timeout");
+                log.push_str(" timeout");
+                break;
+            }
             None => {
                 w.violate("C13", "handover-hash-sigs-refuses", "handover", format!("hash-sigs refuses the library's key file at counter {}: {}", counter, short_hex(&prv)));
                 log.push_str(" sign-refused");
